@@ -274,6 +274,14 @@ type brokenBox struct {
 	box             Box
 	containingBlock Box
 	resumeAt        tree.ResumeStack
+	seq             int // creation order; makePage continues the broken boxes in that order
+}
+
+// newBrokenBox numbers the broken out-of-flow boxes: brokenOutOfFlow is a map,
+// and its iteration order must not decide the order of the boxes on the next page.
+func (self *layoutContext) newBrokenBox(box, containingBlock Box, resumeAt tree.ResumeStack) brokenBox {
+	self.brokenSeq++
+	return brokenBox{box: box, containingBlock: containingBlock, resumeAt: resumeAt, seq: self.brokenSeq}
 }
 
 // layoutContext stores the global context needed during layout,
@@ -295,6 +303,7 @@ type layoutContext struct {
 	excludedShapes      *[]*bo.BoxFields
 	excludedShapesLists [][]*bo.BoxFields
 	brokenOutOfFlow     map[Box]brokenBox
+	brokenSeq           int
 
 	footnotes            []Box
 	currentPageFootnotes []Box
